@@ -407,7 +407,10 @@ func (ci *CaseItem) Pos() Pos {
 func (ci *CaseItem) End() Pos {
 	if ci.Break.IsZero() {
 		if len(ci.List) == 0 {
-			return Pos{}
+			if ci.Rparen.IsZero() {
+				return Pos{}
+			}
+			return ci.Rparen.shift(1)
 		}
 		return ci.List[len(ci.List)-1].End()
 	}
